@@ -245,7 +245,7 @@ def main(argv):
 
     # ---- 2. run the harness: correspondence + direct oracle ----
     res = None
-    if okb and os.path.exists(MODEL_EXE):
+    if okb and os.path.exists(MODEL_EXE) and not cfg.get("no_harness"):
         res, err = harness_run(prop, tier, seed)
         if res is None:
             problems.append(("correspondence", "harness run failed: " + err[-800:], {}))
